@@ -70,7 +70,27 @@ def run(ctx, model_ok):
         "callee writes object state is `call_path_writes_only_fresh`; Model/Level2State and the heap of Model/WriteSet are not run by the driver. "
         "That each of the three flags is NEEDED is shown by witnesses on Level2State.runFlags (the same transformer with the three facts as arguments and scipy's re-normalisation of the "
         "tiled orientation path as a parameter): without_finally_flag_state_leaks, with_unprotected_site_state_leaks, with_slicing_renormalisation_leaks / "
-        "with_slicing_unequal_paths_leak; level2_preserves_state_any_norm is the sufficiency for every re-normalisation, without the equal-lengths hypothesis"])
+        "with_slicing_unequal_paths_leak; level2_preserves_state_any_norm is the sufficiency for every re-normalisation, without the equal-lengths hypothesis",
+        "(audit 2) WHAT THE RESTORE PUTS BACK was not extracted before this audit: `restoreBySlicing = false` only means 'the finally does not assign obj._position[…] of the attribute itself', "
+        "`restore_covers_every_tiled_object` compares the FIRST zip operand of the two loops only, and the model assumed the rest (`Level2State.restore false orig _ = orig`). "
+        "Demonstrated on scratch copies of /repo: moving `reset_obj_orig = [...]` behind the tiling loop regenerated identical three flags and an identical Gen/WriteSet table "
+        "(all theorems of Props/C08 checked) while every shorter path stayed tiled after each call. REPAIRED for the path model: translate/gen.py gen_Exits now emits a fourth fact "
+        "`Gen.Exits.savedBeforeTiling` (one restore loop `for v, (p, o) in zip(A, B): v._position = p; v._orientation = o`; B stored once, by a top-level statement before the first tiling "
+        "statement, as `[(x._position, x._orientation) for x in A]`, read once; six defect variants — save after the tiling at top level / inside the if, restore of another value, second store "
+        "of the saved list, save over another list, conditional comprehension — all give `false` with the other three flags unchanged), Level2State.runFlags4 takes it as an argument, "
+        "Props/C08 `restore_puts_back_arrays_saved_before_tiling`, `level2_preserves_state_four_facts`, witness `with_save_after_tiling_state_leaks`. "
+        "STILL assumed on the heap side: `WriteSet.Heap.restore` resets the temp cells to the entry heap by definition (`heap_restore_is_assumed_not_traced` is the witness, "
+        "`call_path_preserves_old_heap_traced` states it as a hypothesis); the fourth fact is syntactic (an alias of the saved list built through a helper function would be refused, not understood)",
+        "(audit 2) clause by clause: 'position and orientation paths' — level2_preserves_state(_any_norm) + the three flags, under the assumption above; 'geometry, excitation, "
+        "pixels, parent/children' and 'every array passed by the caller' — NO attribute-specific theorem: decided only as 'the regenerated table has no non-fresh write site besides the "
+        "eight of preexisting_roots_are_exactly', i.e. under the trusted points-to classification (`DescribedBy` is a hypothesis, never discharged for a real execution; "
+        "its only instances are the toy traces of Props/C08); 'style' — NOT preserved at slot level (`_style`, `_style_kwargs` are written by the lazy getter), public reading by oracle only; "
+        "'whether the call returns or raises' — every prefix of the write trace (heap) / `compute` failing as a whole (Level2State); "
+        "'calling again gives the identical result' — second_call_same_state gives the same OBJECT STATE for the second call, identical RESULT needs a deterministic computation "
+        "(no hidden state: the table has no `global` root site) and is observed by the freeze oracle (repeated call compared), not proved",
+        "(audit 2) the translator self-test does not fail on `anchor-missing` (the text to patch is gone after a refactoring): then the variant checks nothing; "
+        "the seven variants probe seven places of the analysis, they are not a soundness argument. The order of Gen/WriteSet `functions` depends on the hash seed "
+        "(set iteration in translate/writeset.py); the pinned lists of Props/C08 do not depend on it"])
     _write_set(ctx)
     budget = 10 if len(ctx.broken) else 1
     fails, fst = c08_freeze.sweep(ctx, ctx.scale(100, 1500) * budget)
